@@ -13,7 +13,7 @@ trap cleanup EXIT
 git -C /repo diff HEAD | (cd "$wt" && git apply --allow-empty 2>/dev/null)
 (cd "$wt" && git apply "$patch") || { echo "PATCH-DOES-NOT-APPLY $patch"; exit 2; }
 if [ $tests = 1 ]; then
-  if (cd "$wt" && GOFLAGS=-mod=mod GOPROXY=off GOTOOLCHAIN=local go test -vet=off -count=1 ./... > "$wt/.test.log" 2>&1); then
+  if (cd "$wt" && GOFLAGS=-mod=mod GOPROXY=off GOTOOLCHAIN=local go test -vet=off -count=1 -timeout 180s ./... > "$wt/.test.log" 2>&1); then
     echo "TESTS pass with $(basename "$(dirname "$patch")")/$(basename "$patch")"
   else
     echo "TESTS FAIL with $patch"; grep -E "^(FAIL|---)" "$wt/.test.log" | head
